@@ -131,9 +131,107 @@ func narrowInts(sp *spec.Spec, t *spec.Type, v any, depth int) any {
 	return v
 }
 
+
+// gFill removes from a drawn value the three input classes that a proto3 wire cannot carry faithfully or that
+// run into triaged goa defects, so that they do not eat the budget of (and mask other findings in) the ordinary
+// cases: an empty collection nested in another collection gets one element, a required collection sent empty
+// gets one element, an optional collection with MinLength >= 1 left unset is set. The classes themselves are
+// kept in the designated "hard" cases (class names ending in "+hard").
+func gFill(sp *spec.Spec, g *valgen.G, t *spec.Type, val *spec.Val, v any, inColl bool, depth int) any {
+	rt, _ := sp.Resolve(t)
+	if rt == nil || v == nil || depth > 30 {
+		return v
+	}
+	one := func(a *spec.Attr) any {
+		e := g.Valid(a.Type, a.Val, valgen.Body, depth+6)
+		if e == nil {
+			return nil
+		}
+		return gFill(sp, g, a.Type, a.Val, e, true, depth+1)
+	}
+	switch rt.Kind {
+	case spec.Object:
+		o, _ := v.(map[string]any)
+		if o == nil {
+			return v
+		}
+		for _, a := range rt.Attrs {
+			at, _ := sp.Resolve(a.Type)
+			if at == nil {
+				continue
+			}
+			av, present := o[a.Name]
+			coll := at.Kind == spec.Array || at.Kind == spec.Map || at.Kind == spec.Bytes
+			if coll && (!present || vtree.Empty(vtree.Norm(av))) {
+				need := rt.IsRequired(a.Name) && present
+				if mv := valgen.AllVals(sp, a.Type, a.Val); !rt.IsRequired(a.Name) {
+					for _, m := range mv {
+						if m.MinLen != nil && *m.MinLen >= 1 {
+							need = true
+						}
+					}
+				}
+				if need {
+					saveMin, saveMinimal := g.MinElems, g.Minimal
+					g.MinElems, g.Minimal = 1, false
+					var nv any
+					for i := 0; i < 20; i++ {
+						if nv = g.Valid(a.Type, a.Val, valgen.Body, 1); nv != nil && !vtree.Empty(vtree.Norm(nv)) {
+							break
+						}
+					}
+					g.MinElems, g.Minimal = saveMin, saveMinimal
+					if nv != nil && !vtree.Empty(vtree.Norm(nv)) {
+						o[a.Name], av, present = nv, nv, true
+					}
+				}
+			}
+			if present && av != nil {
+				o[a.Name] = gFill(sp, g, a.Type, a.Val, av, false, depth+1)
+			}
+		}
+		return o
+	case spec.Union:
+		if n, uv, ok := vtree.IsUnion(v); ok {
+			if alt := rt.Attr(n); alt != nil {
+				return map[string]any{"$union": n, "$value": gFill(sp, g, alt.Type, alt.Val, uv, false, depth+1)}
+			}
+		}
+	case spec.Array:
+		arr, _ := v.([]any)
+		if inColl && len(arr) == 0 {
+			if e := one(rt.Elem); e != nil {
+				return []any{e}
+			}
+			return v
+		}
+		for i := range arr {
+			arr[i] = gFill(sp, g, rt.Elem.Type, rt.Elem.Val, arr[i], true, depth+1)
+		}
+		return arr
+	case spec.Map:
+		m, ok := vtree.IsMap(v)
+		if !ok {
+			return v
+		}
+		if inColl && len(m) == 0 {
+			k, _ := g.Valid(rt.Key.Type, rt.Key.Val, valgen.Body, depth+6).(string)
+			if e := one(rt.Elem); e != nil && k != "" {
+				return vtree.MkMap(map[string]any{k: e})
+			}
+			return v
+		}
+		for k, e := range m {
+			m[k] = gFill(sp, g, rt.Elem.Type, rt.Elem.Val, e, true, depth+1)
+		}
+		return vtree.MkMap(m)
+	}
+	return v
+}
+
 // gDraw draws a valid value of attr. meta lists the top-level attributes that travel as metadata (restricted
 // alphabet). mode: 0 minimal, 1 full, else random. ok=false: no valid value could be drawn.
-func gDraw(sp *spec.Spec, attr *spec.Attr, meta map[string]bool, r *vc.Rand, mode int) (any, bool) {
+func gDraw(sp *spec.Spec, attr *spec.Attr, meta map[string]bool, r *vc.Rand, mode int, hard bool) (any, bool) {
 	if attr == nil {
 		return nil, true
 	}
@@ -146,6 +244,9 @@ func gDraw(sp *spec.Spec, attr *spec.Attr, meta map[string]bool, r *vc.Rand, mod
 		v := g.Valid(attr.Type, attr.Val, valgen.Body, 0)
 		if v == nil {
 			return nil, false
+		}
+		if !hard {
+			v = gFill(sp, g, attr.Type, attr.Val, v, false, 0)
 		}
 		return narrowInts(sp, attr.Type, v, 0), true
 	}
@@ -173,7 +274,11 @@ func gDraw(sp *spec.Spec, attr *spec.Attr, meta map[string]bool, r *vc.Rand, mod
 		}
 		o[a.Name] = v
 	}
-	return narrowInts(sp, attr.Type, o, 0), true
+	var out any = o
+	if !hard {
+		out = gFill(sp, g, attr.Type, attr.Val, o, false, 0)
+	}
+	return narrowInts(sp, attr.Type, out, 0), true
 }
 
 // GSplit computes, independently of goa, what a payload looks like on the wire: the metadata pairs of the
@@ -357,11 +462,12 @@ func GRPCCases(sp *spec.Spec, sv *spec.Service, m *spec.Method, r *vc.Rand, n in
 		id++
 		return c
 	}
+	hard := false // set while the designated "+hard" cases are drawn
 	payload := func(rr *vc.Rand, mode int) (any, bool) {
 		if m.Payload == nil {
 			return nil, true
 		}
-		return gDraw(sp, m.Payload, meta, rr, mode)
+		return gDraw(sp, m.Payload, meta, rr, mode, hard)
 	}
 	streamMsgs := func(rr *vc.Rand, k int) ([]any, bool) {
 		if !c2s {
@@ -369,7 +475,7 @@ func GRPCCases(sp *spec.Spec, sv *spec.Service, m *spec.Method, r *vc.Rand, n in
 		}
 		var msgs []any
 		for i := 0; i < k; i++ {
-			v, ok := gDraw(sp, m.StreamP, nil, rr.Fork(uint64(100+i)), 1+i%2)
+			v, ok := gDraw(sp, m.StreamP, nil, rr.Fork(uint64(100+i)), 1+i%2, hard)
 			if !ok {
 				return nil, false
 			}
@@ -384,7 +490,7 @@ func GRPCCases(sp *spec.Spec, sv *spec.Service, m *spec.Method, r *vc.Rand, n in
 		}
 		if s2c {
 			for i := 0; i < k; i++ {
-				v, ok := gDraw(sp, m.Result, nil, rr.Fork(uint64(200+i)), (mode+i)%3)
+				v, ok := gDraw(sp, m.Result, nil, rr.Fork(uint64(200+i)), (mode+i)%3, hard)
 				if !ok {
 					return nil, false
 				}
@@ -392,7 +498,7 @@ func GRPCCases(sp *spec.Spec, sv *spec.Service, m *spec.Method, r *vc.Rand, n in
 			}
 			return oc, true
 		}
-		v, ok := gDraw(sp, m.Result, respMeta, rr.Fork(300), mode)
+		v, ok := gDraw(sp, m.Result, respMeta, rr.Fork(300), mode, hard)
 		if !ok {
 			return nil, false
 		}
@@ -429,6 +535,20 @@ func GRPCCases(sp *spec.Spec, sv *spec.Service, m *spec.Method, r *vc.Rand, n in
 		}
 		if !fill(c, r.Fork(uint64(i)), i, k) {
 			continue
+		}
+		out = append(out, c)
+	}
+	// --- the input classes proto3 cannot carry faithfully (see gFill) are drawn here only
+	for i := 0; i < max(1, n/2); i++ {
+		c := mk("roundtrip", "random+hard", []string{"client", "rawpb"}[i%2])
+		hard = true
+		ok := fill(c, r.Fork(uint64(500+i)), 1+i, 2)
+		hard = false
+		if !ok {
+			continue
+		}
+		if c.Mode == "rawpb" {
+			raw(c)
 		}
 		out = append(out, c)
 	}
@@ -577,6 +697,29 @@ func GRPCCases(sp *spec.Spec, sv *spec.Service, m *spec.Method, r *vc.Rand, n in
 		}
 		c.Outcome = &rt.GOutcome{Kind: "error", ErrName: e.Name, ErrMsg: "scripted " + e.Name}
 		out = append(out, c)
+	}
+	for _, c := range out {
+		if c.Class == "wide-int" {
+			continue
+		}
+		// values drawn by the probes are brought into the 32-bit envelope too
+		if m.Payload != nil && c.Sent != nil {
+			c.Sent = narrowInts(sp, m.Payload.Type, c.Sent, 0)
+		}
+		for i := range c.Stream {
+			c.Stream[i] = narrowInts(sp, m.StreamP.Type, c.Stream[i], 0)
+		}
+		if c.Outcome != nil && m.Result != nil {
+			if c.Outcome.Result != nil {
+				c.Outcome.Result = narrowInts(sp, m.Result.Type, c.Outcome.Result, 0)
+			}
+			for i := range c.Outcome.Stream {
+				c.Outcome.Stream[i] = narrowInts(sp, m.Result.Type, c.Outcome.Stream[i], 0)
+			}
+		}
+		if c.Mode == "rawpb" {
+			raw(c)
+		}
 	}
 	_ = streamKind
 	return out
